@@ -97,7 +97,8 @@ def oracle(case):
             continue
         sp = m.space(w["space"])
         mult = m.mult(sp) if sp else 1.0
-        ov = p.get("u_value_override")
+        # the user's value is read from the model's own overrides, not from the props under test
+        ov = (((case["model"].get("overrides") or {}).get("walls") or {}).get(w["id"]) or {}).get("u_value")
         uu = ov if ov is not None else p["u_value"]
         uu = 5.7 if uu is None else uu
         if not finite(uu):
@@ -118,7 +119,7 @@ def oracle(case):
             if x["wall"] != w["id"]:
                 continue
             px = pwin[x["id"]]
-            ux = px.get("u_value_override")
+            ux = (((case["model"].get("overrides") or {}).get("windows") or {}).get(x["id"]) or {}).get("u_value")
             ux = px["u_value"] if ux is None else ux
             ux = 5.7 if ux is None else ux
             a += mult * m.winarea(x)
